@@ -8,6 +8,9 @@ FAMILIES = {
     "lan":   dict(pi=1000, pt=500, pp=30000, sm=4, mm=6, aw=8, gd=30000, tcp=10000),
     "local": dict(pi=1000, pt=200, pp=15000, sm=3, mm=6, aw=8, gd=15000, tcp=1000),
     "fast":  dict(pi=200, pt=100, pp=5000, sm=4, mm=6, aw=8, gd=5000, tcp=2000),
+    # an answer may take longer than the pause between two probes (ProbeTimeout >= ProbeInterval is a legal configuration:
+    # the probe then ends at its deadline, without time for indirect probes, and still counts as failed)
+    "slowack": dict(pi=200, pt=300, pp=5000, sm=4, mm=6, aw=8, gd=5000, tcp=2000),
 }
 
 
@@ -55,8 +58,11 @@ def starts(names, rng, chain=False):
 
 
 def plan_c03(pid, rng, tier):
+    slowack = pid % 6 == 5
     n = rng.randint(3, 7 if tier == "quick" else 12)
     fam = rng.choice(["lan", "local", "fast"])
+    if slowack:
+        fam = "slowack"
     f = FAMILIES[fam]
     names = ["n%d" % (i + 1) for i in range(n)]
     jit = rng.choice([5, 20, f["pt"] // 3])
